@@ -309,10 +309,15 @@ def run_real(case):
     v = []
     try:
         shape = [rnd.randint(3, 90) for _ in range(3)]
+        if rnd.random() < 0.4:
+            shape[rnd.randrange(3)] = rnd.randint(129, 200)     # three chunks along one axis
         dt = rnd.choice(["uint8", "uint16", "float32", "uint32"])
         arr = np.random.default_rng(case["rseed"]).integers(0, 200, size=shape).astype(dt)
         fn = os.path.join(top, "v.nii")
-        nibabel.save(nibabel.Nifti1Image(arr, np.diag([1., 1., rnd.choice([1., 2.]), 1.])), fn)
+        # (two distinct voxel sizes at most: three distinct ones are the recorded C08 finding)
+        vy, vz = rnd.choice([(1., 1.), (1., 2.), (1., 4.), (1., 0.25), (2., 2.), (2., 1.),
+                             (4., 4.)])
+        nibabel.save(nibabel.Nifti1Image(arr, np.diag([1., vy, vz, 1.])), fn)
         d1 = os.path.join(top, "ds")
         del _WRITES[:]
         if case["route"] == "slices":
@@ -441,7 +446,8 @@ def run_real(case):
             if "sharding" in s:
                 rd = shard_spec.Reader(os.path.join(dataset, s["key"]), s["sharding"])
                 n_idx = 0
-                for name in os.listdir(os.path.join(dataset, s["key"])):
+                sdir = os.path.join(dataset, s["key"])
+                for name in (os.listdir(sdir) if os.path.isdir(sdir) else []):
                     sf = rd.shard_file(name[:-6])
                     n_idx += sum(1 for e in sf.minishards.values() for x in e if x[2] > 0)
                 if n_idx != ec[(s["key"], tuple(s["chunk_sizes"][0]))]:
